@@ -167,7 +167,16 @@ type w struct {
 }
 
 // Keys returns the key leaf names of a list in key-statement order.
-func (n *Node) Keys() []string { return strings.Fields(n.Key) }
+// (a key may be written with the prefix of the module the list is written in; the name after it is the key leaf's)
+func (n *Node) Keys() []string {
+	ks := strings.Fields(n.Key)
+	for i, k := range ks {
+		if j := strings.Index(k, ":"); j >= 0 {
+			ks[i] = k[j+1:]
+		}
+	}
+	return ks
+}
 
 // FirstKey is the key leaf whose value names the entries of a list in paths and data trees.
 func (n *Node) FirstKey() string {
